@@ -12,7 +12,7 @@ OPN = {'LINE': 0, 'SETC': 1, 'COPY': 2, 'ADDC': 3, 'SUBC': 4, 'JZ': 5, 'JMP': 6,
 
 
 # ------------------------------------------------------------------------------------------------ shapes
-LOOPY = {'loop_detour', 'nested_loops_oneline', 'call_in_loop_oneline', 'loop_bound_assigned', 'while_dec', 'goto_back', 'goto_into_loop', 'goto_out_of_loop', 'stop_mid', 'call_in_loop', 'call_two_args_out', 'call_nested_arg', 'callee_stop', 'nested_loops', 'while_in_loop'}
+LOOPY = {'multi_goto_one_label', 'label_per_routine', 'while_call_dec', 'loop_in_callee_in_loop', 'sub_bound_skip', 'loop_detour', 'nested_loops_oneline', 'call_in_loop_oneline', 'loop_bound_assigned', 'while_dec', 'goto_back', 'goto_into_loop', 'goto_out_of_loop', 'stop_mid', 'call_in_loop', 'call_two_args_out', 'call_nested_arg', 'callee_stop', 'nested_loops', 'while_in_loop'}
 
 
 def shapes(tier, seed):
@@ -54,9 +54,32 @@ def shapes(tier, seed):
     # non-canonical layout: the whole program on one line (C01/C16 quantify over every layout; C07 does not)
     L.append(('nested_loops_oneline', P([('set', 'n', 0), ('set', 'm', 1), ('loop', 'n', [('loop', 'm', [('add', 'x0', 'x0', 2)])])]), 'compact'))
     L.append(('call_in_loop_oneline', P([('set', 'n', 0), ('loop', 'n', [('call', 'y', 'f', [('var', 'y')])])], [dict(f1, body=[('add', 'x0', 'a', 1)])]), 'compact'))
+    # ---- round 5: interactions named by C01's quantifier that the first family left out
+    t3 = {'name': 't', 'params': ['a', 'b', 'c'], 'out': 'c', 'body': [('add', 'c', 'c', 2), ('copy', 'd', 'a'), ('copy', 'e', 'b')]}
+    # two calls as arguments of one call: the first result must survive the evaluation of the second (temporaries across a call)
+    L.append(('two_call_args', P([('set', 'y', 0), ('call', 'z', 'p2', [('call', 'f', [('var', 'y')]), ('call', 'f', [('lit', 1)])])],
+                                 [dict(f1, body=[('add', 'x0', 'a', 2)]), {'name': 'p2', 'params': ['a', 'b'], 'out': None, 'body': [('copy', 'u', 'a'), ('sub', 'x0', 'b', 3)]}])))
+    # three arguments of three kinds (literal, variable, call); the result variable is the last parameter
+    L.append(('three_args', P([('set', 'y', 0), ('call', 'r', 't', [('lit', 1), ('var', 'y'), ('call', 'f', [('var', 'y')])])], [dict(f1, body=[('add', 'x0', 'a', 3)]), t3])))
+    # calls nested three deep in argument position
+    L.append(('deep_nested_arg', P([('call', 'z', 'f', [('call', 'f', [('call', 'f', [('lit', 0)])])])], [dict(f1, body=[('add', 'x0', 'a', 1)])])))
+    # the assigned variable is also passed twice as argument; result is a parameter
+    L.append(('call_arg_is_target', P([('set', 'y', 0), ('call', 'y', 'q', [('var', 'y'), ('var', 'y')])], [{'name': 'q', 'params': ['a', 'b'], 'out': 'b', 'body': [('add', 'b', 'a', 1), ('set', 'a', 2)]}])))
+    # several jumps to one forward label (a backpatch list with three entries) and a label that is never the target of anything
+    L.append(('multi_goto_one_label', P([('set', 'x0', 0), ('ifgoto', 'x0', 1, 'e'), ('ifgoto', 'x0', 2, 'e'), ('set', 'x1', 3), ('goto', 'e'), ('label', 'u', ('set', 'x1', 4)), ('label', 'e', ('copy', 'x2', 'x1'))])))
+    # the same label name in a program and in the main part (labels are per routine), a forward jump in each
+    L.append(('label_per_routine', P([('call', 'r', 'h', [('lit', 0)]), ('ifgoto', 'r', 1, 'q'), ('set', 'r', 2), ('label', 'q', ('copy', 's', 'r'))],
+                                     [{'name': 'h', 'params': ['a'], 'out': None, 'body': [('ifgoto', 'a', 3, 'q'), ('set', 'x0', 4), ('label', 'q', ('add', 'x0', 'x0', 5))]}])))
+    # WHILE whose variable is recomputed by a call in the body; the callee truncates at zero
+    L.append(('while_call_dec', P([('set', 'w', 0), ('while', 'w', [('call', 'w', 'd', [('var', 'w')]), ('add', 'x0', 'x0', 1)])], [{'name': 'd', 'params': ['a'], 'out': None, 'body': [('sub', 'x0', 'a', 2)]}])))
+    # LOOP inside a callee that is called from inside a LOOP: two live hidden counters in two activations
+    L.append(('loop_in_callee_in_loop', P([('set', 'n', 0), ('loop', 'n', [('call', 'y', 'm', [('var', 'y')])])], [{'name': 'm', 'params': ['a'], 'out': 'a', 'body': [('set', 'k', 1), ('loop', 'k', [('add', 'a', 'a', 2)])]}])))
+    # truncated subtraction feeding a LOOP bound, the loop skipped or run; jump forward over a whole loop
+    L.append(('sub_bound_skip', P([('set', 'n', 0), ('sub', 'n', 'n', 1), ('ifgoto', 'n', 2, 'z'), ('loop', 'n', [('add', 'x0', 'x0', 3)]), ('label', 'z', ('copy', 'x1', 'x0'))])))
     out = [(n, p, (rest[0] if rest else False)) for (n, p, *rest) in L]
     if tier == 'thorough':
         out += generated_family(seed)
+    if os.environ.get('CTV_ONLY'): out = [x for x in out if x[0] in os.environ['CTV_ONLY'].split(',')]
     return out
 
 
